@@ -286,6 +286,9 @@ def initTrust (radius down : α) : SState α := ⟨k 1 / radius, radius, down⟩
 def rhoTrivial (x : α) : α := x
 def rhoHuber (delta : α) (x : α) : α :=
   if Scalar.lt (Scalar.sqrt x) delta then x else k 2 * delta * Scalar.sqrt x - delta * delta
+/-- a USER kernel deriving from `Huber` and overriding `forward`: `ρ(x) = Huber_δ(x) − δ²` (negative for small residuals:
+the loss may be negative; same derivatives as Huber) -/
+def rhoShiftHuber (delta : α) (x : α) : α := rhoHuber delta x - delta * delta
 def rhoPseudoHuber (delta : α) (x : α) : α :=
   k 2 * (delta * delta) * (Scalar.sqrt (x / (delta * delta) + k 1) - k 1)
 def rhoCauchy (delta : α) (x : α) : α :=
